@@ -539,6 +539,16 @@ SOURCE_BODIES = {
     # a projection whose FIXED argument is an unknown name (only the point forms take a monad)
     "projection-unknown-fixed-arg": (None, "{+/x*y}(;c07q)"),
     "projection-known-fixed-arg": (None, "{+/x*y}(;m)"),
+    # local declarations whose names COLLIDE with existing globals (m, e, mm), in the semicolon
+    # spelling {[a;b];...} (1-3 names), the blank spelling, and inside a helper the loss calls
+    "semicolon-locals-1": ("{[m];m::(w*w)+b;+/m*m}", "{[m];m::x*x;+/m}"),
+    "semicolon-locals-2": ("{[m;e];m::(w*w)+b;e::m*2;+/e*e}", "{[m;e];m::x*x;e::m*2;+/e}"),
+    "semicolon-locals-3": ("{[m;e;mm];m::(w*w)+b;e::m*2;mm::e+1;+/mm*mm}", "{[m;e;mm];m::x*x;e::m*2;mm::e+1;+/mm}"),
+    "blank-locals-2": ("{[m e];m::(w*w)+b;e::m*2;+/e*e}", "{[m e];m::x*x;e::m*2;+/e}"),
+    "semicolon-locals-in-helper": ("{c07h(w)+b*b}", "{c07h(x)}", ["c07h::{[m;e];m::x*x;e::m*2;+/e}"]),
+    # Reshape with a -1 wildcard: the shape is a GLOBAL (sh, sh2) or a literal of the body
+    "reshape-wildcard-global-shape": ("{[W];W::sh:^w;(+/,/W*W)+b*b}", "{[W];W::sh:^x;+/,/W*W}"),
+    "reshape-wildcard-literal-shape": ("{[W];W::[-1 1]:^w;(+/,/W*W)+b*b}", "{[W];W::[-1 1]:^x;+/,/W*W}"),
 }
 
 # the differentiated function READS other globals (m: vector, mm: matrix) and transforms them with
@@ -551,6 +561,7 @@ TRANSFORMS = {
     "index-in-depth": "mm:@[1 0]", "transpose": ",/+mm", "reverse-matrix": ",/|mm", "sort-up": "m@<m",
     "sort-down": "m@>m", "each": "{x*2}'m", "negate": "-m", "floor": "_m", "split": ",/2:#m",
     "scan": "+\\m", "first-rest": "(*m),1_m", "self-times": "m*m",
+    "reshape-wildcard": ",/sh:^m", "reshape-wildcard-matrix": ",/sh2:^mm", "reshape-wildcard-join": ",/sh:^m,m",
 }
 for _n, _t in TRANSFORMS.items():
     SOURCE_BODIES["global:" + _n] = ("{c07s::+/" + _t + ";(+/w*w)+(b*b)+c07s}", "{c07s::+/" + _t + ";(+/x*x)+c07s}")
@@ -560,7 +571,8 @@ def source_cases(backends):
     vec = ["f64", [3], [M, 2 * M, 3 * M]]
     for be in backends:
         for form in FORMS:
-            for body, (nil, mon) in SOURCE_BODIES.items():
+            for body, spec in SOURCE_BODIES.items():
+                nil, mon = spec[0], spec[1]
                 if (mon if form in MONADIC else nil) is None:
                     continue
                 kinds = [vec]
@@ -582,7 +594,13 @@ def _source_interp(case):
     klong["b"] = 0.5
     klong("m::[3.0 1.0 2.0]")
     klong("mm::[[1.0 2.0] [3.0 4.0]]")
-    nil, mon = SOURCE_BODIES[case["body"]]
+    klong("e::2.718")
+    klong("sh::[-1 1]")
+    klong("sh2::[2 -1]")
+    spec = SOURCE_BODIES[case["body"]]
+    nil, mon = spec[0], spec[1]
+    for extra in (spec[2] if len(spec) > 2 else []):
+        klong(extra)
     if nil is not None:
         klong("g::" + nil)
     if mon is not None:
@@ -599,7 +617,7 @@ def run_source(case):
     must itself leave the state alone."""
     form = case["form"]
     klong = _source_interp(case)
-    nil, mon = SOURCE_BODIES[case["body"]]
+    nil, mon = SOURCE_BODIES[case["body"]][:2]
     expr = expr_of(dict(form=form, params=["w", "b"] if form in ("mgrad", "mjac") else ["w"]))
 
     def snapshot(k):
@@ -650,6 +668,18 @@ def run_source(case):
         elif s2 != s1 and snapshot(ref) == s0:
             problems.append((f"{tag}:f-after-changes-state", "state unchanged", sorted(k[1] for k in s2 if s2[k] != s1.get(k)),
                              f"the plain evaluation of {fn} after `{expr}` now changes the program state"))
+        elif form in MONADIC:
+            # ... and on an argument of ANOTHER size (literals of the body must not remember the probes);
+            # reference: an interpreter in which the function has never been evaluated at all
+            def plain2(k):
+                try:
+                    return view(k("f(w,w)"))
+                except Exception as e:
+                    return "raises:" + type(e).__name__
+            after2, ref2 = plain2(klong), plain2(_source_interp(case))
+            if after2 != ref2:
+                problems.append((f"{tag}:f-after-differs-other-size", ref2, after2,
+                                 f"{fn} applied to w,w after `{expr}` returns something else than in a fresh interpreter"))
     return dict(problems=problems, expr=expr, outcome=outcome)
 
 
